@@ -359,6 +359,14 @@ def _shard(ctx, rng, ovf):
                 for r_ in doc.get("Resources", {}).values():
                     if rng.random() < 0.5:
                         r_.pop("Type", None)
+            if rng.random() < 0.35:
+                # resources whose parts have the wrong kind: a Type that is no string (a reference, a number, null, a list), Properties that are
+                # no map, a resource that is no map - next to well-formed ones
+                res_ = doc.setdefault("Resources", {})
+                res_["odd%d" % t] = {"Type": rng.choice([{"Ref": "T"}, 5, None, ["AWS::S3::Bucket"], True, ""]), "Properties": {"a": 1, "b": [1]}}
+                if rng.random() < 0.5:
+                    res_["odd%db" % t] = rng.choice([{"Type": "AWS::S3::Bucket", "Properties": [1, 2]}, {"Type": "AWS::S3::Bucket", "Properties": "x"}, [1], "str", None,
+                                                    {"Type": "AWS::S3::Bucket", "Properties": {"": 1, "k": {"": {}}}}])
             ttext = json.dumps(doc) if rng.random() < 0.6 else mutate(rng, json.dumps(doc), 1)
             p = os.path.join(sdir, "t.json")
             mode = "wb"
